@@ -38,6 +38,11 @@ class CaseTimeout(BaseException):
     `except Exception` clauses of the library's checkers do not swallow it)"""
 
 
+class ShardDeadline(BaseException):
+    """raised between two cases when this interpreter has used its share of the wall-clock budget: the rest of the workload is
+    skipped and the results so far are reported (the run is then at best inconclusive, never 'held')"""
+
+
 class Rec(object):
     MAX_WITNESS_PER_KEY = 5
 
@@ -68,7 +73,32 @@ class Rec(object):
         self.evaluations += n
         self.monitors[monitor] += n
 
+    def maybe_flush(self, every=20.0):
+        """writes the results so far to <flush_path> (atomically), at most every `every` seconds: if the wall-clock watchdog has
+        to kill this interpreter, what its monitors had observed until then is not lost"""
+        path = getattr(self, 'flush_path', None)
+        if not path:
+            return
+        now = time.time()
+        if now - getattr(self, '_last_flush', 0.0) < every:
+            return
+        self._last_flush = now
+        try:
+            d = self.dump()
+            d['harness_error'] = None
+            d['partial'] = True
+            tmp = path + '.tmp'
+            with open(tmp, 'w') as f:
+                json.dump(d, f)
+            os.replace(tmp, path)
+        except Exception:
+            pass
+
     def note_case(self, case, cls, nontrivial, sample_every=0):
+        self.maybe_flush()
+        dl = getattr(self, 'deadline', None)
+        if dl is not None and time.time() > dl:
+            raise ShardDeadline()
         self.case = case
         self.classes[cls] += 1
         if nontrivial:
